@@ -16,7 +16,19 @@ where
     T: Send + 'static,
 {
     match current() {
-        Some((w, me)) => JoinHandle(Inner::Sim(spawn_sim(&w, me, f))),
+        Some((w, me)) => JoinHandle(Inner::Sim(spawn_sim(&w, me, None, f))),
+        None => JoinHandle(Inner::Real(std::thread::spawn(f))),
+    }
+}
+
+/// Spawn with a name that is visible in the simulator's thread table from the start.
+pub fn spawn_named<F, T>(name: &str, f: F) -> JoinHandle<T>
+where
+    F: FnOnce() -> T + Send + 'static,
+    T: Send + 'static,
+{
+    match current() {
+        Some((w, me)) => JoinHandle(Inner::Sim(spawn_sim(&w, me, Some(name.to_string()), f))),
         None => JoinHandle(Inner::Real(std::thread::spawn(f))),
     }
 }
